@@ -307,17 +307,23 @@ static void body_recover(Tape &t, Ctx &c) {
 		erased.push_back(e);
 	}
 	std::sort(erased.begin(), erased.end());
-	size_t len = (size_t) t.pick<uint32_t>({1, 16, 31, 64, 100, 257, 1024});
+	size_t len = (size_t) t.pick<uint32_t>({1, 16, 31, 64, 100, 257, 1024, 33, 95, 4096});
 	if ((size_t) k * len * ne > 4000000) len = 64;
 	uint64_t dseed = t.bits64();
-	c.fpmix(cauchy); c.fpmix(m); c.fpmix(k); c.fpmix(len);
+	// the erased blocks are rebuilt by whatever table/encode kernels the dispatcher picks for a generated processor
+	int lvi = (int) t.range(0, cpu::N_LEVELS - 1);
+	const char *lvl = cpu::LEVEL_NAMES[lvi];
+	kern::use_level(lvl);
+	c.fpmix(cauchy); c.fpmix(m); c.fpmix(k); c.fpmix(len); c.fpmix(lvi);
 	for (int e : erased) c.fpmix(e);
 	run_recover(cauchy, m, k, erased, len, dseed, c, true);
+	c.label(std::string("cpu=") + lvl);
+	if (ne >= 7 && len >= 64) c.label("erasures>=7,len>=64");
 	c.nontrivial = ne >= 2;
 	c.label(cauchy ? "cauchy" : "rs");
 	c.label(fmt("erasures=%d", ne > 4 ? 5 : ne));
 	if (c.want_sample) { std::string es; for (int e : erased) es += (es.empty() ? "" : ",") + std::to_string(e);
-		c.sample = fmt("{\"generator\":%s,\"m\":%d,\"k\":%d,\"erased\":[%s],\"len\":%zu}", cauchy ? "\"cauchy1\"" : "\"rs\"", m, k, es.c_str(), len); }
+		c.sample = fmt("{\"generator\":%s,\"m\":%d,\"k\":%d,\"erased\":[%s],\"len\":%zu,\"cpu\":\"%s\"}", cauchy ? "\"cauchy1\"" : "\"rs\"", m, k, es.c_str(), len, lvl); }
 }
 
 // exhaustive erasure patterns for small m: tape {cauchy, m, k}: every set of exactly m-k erased fragments
